@@ -1122,6 +1122,9 @@ def processDataMessageRaw (K : Crypto) (header msg : Bytes) : M (Option Bytes ×
 def potentialHeartbeat (K : Crypto) (plain : Option Bytes) : M (Option Bytes) := do
   if plain.isNone then return none
   let c ← getc
+  -- repaired code: the message just received may have ended the session (text together with a
+  -- disconnect TLV): nothing can be sent any more, and that is not an error of this message
+  if c.msgState != .encrypted then return none
   let t ← now
   let due := match c.heartbeatLastSent with
     | none => true
